@@ -164,6 +164,13 @@ def run_case(case, ctx):
     if k == "merge":
         m = ctx.call("merge_spike_trains", pyspike.merge_spike_trains, sts)
         exp = sorted(s for tr in case["trains"] for s in tr)
+        # the very first thing done with the merged train may be to copy it
+        mc = ctx.call("copy_of_merged", m.copy)
+        gotc = [float(v) for v in mc.spikes]
+        ctx.check(gotc == exp and mc.t_start == m.t_start and mc.t_end == m.t_end,
+                  "copy_of_merged_train",
+                  lambda: "copy() of the freshly merged train holds %r, expected %r"
+                  % (gotc, exp))
         got = [float(v) for v in m.spikes]
         ctx.check(collections.Counter(got) == collections.Counter(exp), "merge_multiset",
                   lambda: "trains %r merged to %r" % (case["trains"], got))
